@@ -27,7 +27,7 @@ func TestVerifC03(t *testing.T) {
 			vhOp{"L", ty, "garbage"}, vhOp{"L", ty, "empty"}, vhOp{"L", ty, "stale"}, vhOp{"L", ty, "unrelated"})
 	}
 	invalid = append(invalid, vhOp{"L", "rollback", "empty"}, vhOp{"R", "rollback", "empty"}, vhOp{"L", "bogus", "fresh"}, vhOp{"R", "bogus", "pool"})
-	c.Rule(fmt.Sprintf("every canonical negotiation state reachable within %d calls (merged BFS over real PeerConnections, %d-operation alphabet) x %d further calls: every description type on both sides with %d single-deviation invalid variants of a valid peer description (dropped mid / ufrag / pwd / fingerprint, malformed fingerprint, payload, fmtp, extmap, candidate), unparsable and empty text, stale and unrelated local text; oracle on every rejected call: signaling state and the four descriptions unchanged and no signaling-state event attributed to the call; distinct = (state, call, error class)", depth, len(alpha), len(invalid), len(vhMutations)))
+	c.Rule(fmt.Sprintf("every canonical negotiation state reachable within %d calls (merged BFS over real PeerConnections, %d-operation alphabet) x %d further calls: every description type on both sides with %d single-deviation invalid variants of a valid peer description (dropped mid / ufrag / pwd / fingerprint, malformed fingerprint, payload, fmtp, extmap, candidate), unparsable and empty text, stale and unrelated local text; the remote deviations also from the fresh state on connections with SDPSemantics PlanB / UnifiedPlanWithFallback, on the plain offer and on one that announces two tracks in a section; oracle on every rejected call: signaling state and the four descriptions unchanged and no signaling-state event attributed to the call; distinct = (state, call, error class)", depth, len(alpha), len(invalid), len(vhMutations)))
 	visit := func(hist []vhOp, r *vhRun) { vhReport(c, "C03", hist, r) }
 	reps := vhBFS(t, c, alpha, depth, true, visit)
 	c.Set("states_probed", len(reps))
@@ -40,6 +40,26 @@ func TestVerifC03(t *testing.T) {
 		h := reps[canon]
 		for _, op := range invalid {
 			jobs = append(jobs, job{canon, append(append([]vhOp{}, h...), op)})
+		}
+	}
+	// the remote deviations again on connections configured with the other SDP semantics (the Plan-B detectors
+	// take part in the validation there), from the fresh state, on an offer that announces two tracks in one
+	// section with ordinary mids
+	semantics := map[string]SDPSemantics{"planb": SDPSemanticsPlanB, "fallback": SDPSemanticsUnifiedPlanWithFallback}
+	for _, name := range []string{"fallback", "planb"} {
+		cfg := &Configuration{SDPSemantics: semantics[name]}
+		for _, base := range []string{"mut:", "twotracks+mut:"} {
+			for _, mname := range vhMutations {
+				hist := []vhOp{{"R", "offer", base + mname}}
+				r := vhReplay(t, hist, cfg)
+				c.Eval()
+				c.Transition()
+				last := r.Steps[len(r.Steps)-1]
+				if last.Err != "" {
+					c.Distinct("sem=" + name + "|" + last.Op.String() + "|" + last.ErrClass)
+				}
+				vhReport(c, "C03", hist, r)
+			}
 		}
 	}
 	vkit.Parallel(len(jobs), func(i int) {
